@@ -264,7 +264,7 @@ func runC08(r *core.Run) {
 	// deviation-bounded placement inside 12 small writes
 	for _, cfg := range []L2Cfg{{DictCap: 4096, BufSize: 273}, {DictCap: 4096, Matcher: 1}} {
 		cfg := cfg
-		e := &core.Explorer{Bound: 2, Workers: r.Workers, Stop: func() bool { return r.Expired("deviation placement") }, Body: func(x *core.X) {
+		e := &core.Explorer{Ctx: r, Name: "C08 deviation placement", Bound: 2, Workers: r.Workers, Stop: func() bool { return r.Expired("deviation placement") }, Body: func(x *core.X) {
 			var h []string
 			for i := 0; i < 12; i++ {
 				switch x.Choose(4) {
